@@ -76,6 +76,9 @@ fn go(toks: &[Value], i: usize, r: &mut R) -> usize {
             r.w(" that "); j = go(toks, j, r); r.w(" end");
         }
         | "blockp" => { r.w("begin param "); name(r, "n1", 1); r.w(" that "); j = go(toks, j, r); r.w(" end"); }
+        | "blk" => { r.w("begin "); j = go(toks, j, r); r.w(" end"); }
+        | "lthat" => { r.w("let "); name(r, "n1", 1); r.w(" = "); j = go(toks, j, r); r.w(" that "); j = go(toks, j, r); }
+        | "pthat" => { r.w("param "); name(r, "n1", 1); r.w(" that "); j = go(toks, j, r); }
         | "imp" => {
             let file = r.files.len();
             r.files.push(String::new());
@@ -126,6 +129,7 @@ pub fn replay_scope(cases_path: &str, out_path: &str) {
                 }
             }
             let dup = case["dup"].as_bool().unwrap();
+            let noblock = case["noblock"].as_bool().unwrap_or(false);
             let src = r.files[0].clone();
             let session_result = {
                 let path = an.path("case.zy");
@@ -152,8 +156,8 @@ pub fn replay_scope(cases_path: &str, out_path: &str) {
                             got.insert((file_of(us.get_path()), us.get_cursor1().0), (file_of(bs.get_path()), bs.get_cursor1().0));
                         }
                     }
-                    if !unbound.is_empty() || dup {
-                        findings.push(mk("resolves-what-the-rules-reject", format!("model: unbound {unbound:?} duplicate {dup}")));
+                    if !unbound.is_empty() || dup || noblock {
+                        findings.push(mk("resolves-what-the-rules-reject", format!("model: unbound {unbound:?} duplicate {dup} that-without-block {noblock}")));
                     } else if got != want {
                         let diff: Vec<String> = want.iter().filter(|(k, v)| got.get(k) != Some(v)).map(|(k, v)| format!("use {k:?}: rules say binder {v:?}, resolver says {:?}", got.get(k))).collect();
                         findings.push(mk("occurrence-bound-to-wrong-binder", diff.join("; ")));
@@ -172,14 +176,27 @@ pub fn replay_scope(cases_path: &str, out_path: &str) {
                         if !dup {
                             findings.push(mk("spurious-duplicate-definition", msg));
                         }
+                    } else if msg.contains("requires an enclosing `begin` block") {
+                        class = "that-without-block";
+                        if !noblock {
+                            findings.push(mk("spurious-that-without-block", msg));
+                        }
                     } else {
                         class = "other-resolve-error";
                         findings.push(mk("unexpected-resolve-error", msg));
                     }
                 }
                 | Ok(Err(other)) => {
-                    class = "other-error";
-                    findings.push(mk("unexpected-error", format!("{other}").chars().take(200).collect()));
+                    let msg: String = format!("{other}").chars().take(200).collect();
+                    if msg.contains("Mobile binding without a block") || msg.contains("without a block") {
+                        class = "that-without-block";
+                        if !noblock {
+                            findings.push(mk("spurious-that-without-block", msg));
+                        }
+                    } else {
+                        class = "other-error";
+                        findings.push(mk("unexpected-error", msg));
+                    }
                 }
             }
             (findings, class)
